@@ -24,8 +24,9 @@ PID = 'C07'
 RULE = ('one bucket per operation x operand-rank pair x operand kind ({UTPM,UTPM}, {UTPM,ndarray}, {ndarray,UTPM}); cases = '
         '(D <= 6, P <= 3, sizes 1..5, coefficient arrays) drawn by Hypothesis; matrices that are inverted / factored have '
         'zeroth coefficients built constructively per direction (Q1 diag(s) Q2^T with sigma_min >= 0.3, or row-permuted '
-        'diagonally dominant = pivoting required), drawn independently for every direction; higher coefficients dense or '
-        'sparse in [-1,1] (expm: ||A0||_1 <= 0.5, higher coefficients in [-0.5,0.5]); non-trivial = D >= 3 and some '
+        'diagonally dominant = pivoting required), drawn independently for every direction; higher coefficients dense, '
+        'element-sparse or with whole coefficient layers zeroed (gen.higher_coeffs) in [-1,1]; dot/outer/trace operands also with '
+        'a vanishing zeroth coefficient (all or some directions); (expm: ||A0||_1 <= 0.5, higher coefficients in [-0.5,0.5]); non-trivial = D >= 3 and some '
         'matrix/vector side >= 2 and some higher coefficient of a UTPM operand non-zero; distinct by descriptor hash')
 ASSUMPTIONS = [
     'dot/outer: reference = sum_k numpy.dot/outer(x_k, y_{d-k}) per direction, tolerance 1e-12 * sum|terms| (re-association only); trace: exact',
@@ -64,9 +65,27 @@ def const_array(draw, shape):
 
 
 @st.composite
-def operand(draw, kind, D, P, shape):
+def zero_base(draw, x):
+    """dot, outer, trace admit a vanishing zeroth coefficient (x(t) = x_1 t + ...): in all directions (the whole
+    coefficient layer 0 is zero although higher layers are not), or in some directions only"""
+    mode = draw(st.sampled_from(['keep', 'keep', 'keep', 'keep', 'all', 'all', 'some']))
+    if mode == 'keep' or x.shape[0] < 2:
+        return x
+    x = x.copy()
+    if mode == 'all':
+        x[0] = 0.0
+    else:
+        for p in range(x.shape[1]):
+            if draw(st.booleans()):
+                x[0, p] = 0.0
+    return x
+
+
+@st.composite
+def operand(draw, kind, D, P, shape, zero_ok=True):
     if kind == 'U':
-        return draw(gen.utpm_data(D, P, shape, VAL))
+        x = draw(gen.utpm_data(D, P, shape, VAL))      # higher coefficients: gen.higher_coeffs (zero layers included)
+        return draw(zero_base(x)) if zero_ok else x
     return draw(const_array(shape))
 
 
@@ -91,7 +110,7 @@ def regular_utpm(draw, D, P, n, mag=1.0, posdet=False):
             B[0] = -B[0]
         A[0, p] = B
     if D > 1:
-        A[1:] = draw(gen.float_array((D - 1, P, n, n), gen.coeff_elements(mag)))
+        A[1:] = draw(gen.higher_coeffs((D - 1, P, n, n), gen.coeff_elements(mag)))
     return A
 
 
@@ -140,7 +159,7 @@ def solve_cases(draw, kind, tier, vec=False):
         A = draw(base_matrix(n))
     shb = (n,) if vec else (n, draw(st.integers(1, 4)))
     if kind[1] == 'U':
-        B = draw(gen.utpm_data(D, P, shb, VAL))
+        B = draw(zero_base(draw(gen.utpm_data(D, P, shb, VAL))))      # a right-hand side may vanish at t = 0
     else:
         B = draw(gen.float_array(shb, VAL, sparse=False))
     return {'op': 'solve', 'kind': kind, 'entry': draw(st.sampled_from(['global', 'class'])), 'A': A, 'B': B}
@@ -160,7 +179,7 @@ def trace_cases(draw, tier):
     n = draw(st.integers(1, 5))
     m = n if draw(st.booleans()) else draw(st.integers(1, 5))
     return {'op': 'trace', 'entry': draw(st.sampled_from(['global', 'class'])),
-            'A': draw(gen.utpm_data(D, P, (n, m), VAL))}
+            'A': draw(zero_base(draw(gen.utpm_data(D, P, (n, m), VAL))))}
 
 
 @st.composite
@@ -170,11 +189,11 @@ def expm_cases(draw, tier):
     A = np.zeros((D, P, n, n))
     for p in range(P):
         raw = draw(gen.float_array((n, n), gen.interval_union((-1.0, 1.0)), sparse=False))
-        r = draw(st.one_of(st.just(0.5), gen.nice_floats(0.0, 0.5)))
+        r = draw(st.one_of(st.just(0.5), st.just(0.5), gen.nice_floats(0.0, 0.5), st.just(0.0)))
         nrm = np.abs(raw).sum(axis=0).max()
         A[0, p] = raw * (r / nrm) if nrm > 0 else raw
     if D > 1:
-        A[1:] = draw(gen.float_array((D - 1, P, n, n), gen.coeff_elements(0.5)))
+        A[1:] = draw(gen.higher_coeffs((D - 1, P, n, n), gen.coeff_elements(0.5)))
     return {'op': 'expm', 'A': A}
 
 
@@ -370,6 +389,11 @@ def _nontrivial(case):
     return any(np.any(a[1:] != 0) for a in _utpm_operands(case))
 
 
+def _zero_layer_below_nonzero(a):
+    D = a.shape[0]
+    return any(not np.any(a[k]) and np.any(a[k + 1:]) for k in range(D - 1))
+
+
 def _pivoted(B):
     if B.ndim != 2 or B.shape[0] != B.shape[1]:
         return False
@@ -386,6 +410,13 @@ def _classes(case):
         c.append('entry=' + case['entry'])
     ops = _utpm_operands(case)
     c.append('pattern=' + gen.pattern_class(ops[0]))
+    # an identically zero coefficient layer (all directions, all elements) below a non-zero one, layer 0 included
+    if any(_zero_layer_below_nonzero(a) for a in ops):
+        c.append('zero-layer-below-nonzero(any operand, layer 0 included)')
+    if any(a.shape[0] > 1 and not np.any(a[0]) and np.any(a[1:]) for a in ops):
+        c.append('zero-base(all directions)')
+    elif any(a.shape[0] > 1 and any(not np.any(a[0, p]) and np.any(a[1:, p]) for p in range(a.shape[1])) for a in ops):
+        c.append('zero-base(some directions)')
     if any(gen.distinct_bases(a) for a in ops):
         c.append('distinct-bases')
     c.append('maxside=%d' % max(_sides(case)))
